@@ -45,6 +45,15 @@ pub enum Op {
     RemoveFile(usize, usize),
     AddToFile(usize, usize),
     RemoveFromFile(usize, usize),
+    // ---- OP2 family (Tree/Script2.v)
+    Sort(usize),
+    SortModel(usize),
+    Duplicate(usize),
+    Load(usize, Vec<u8>, Vec<u8>, bool),
+    SetVersion(usize, u32),
+    CheckCompat(usize, u32),
+    SerializeFile(usize),
+    SerializeElem(usize),
 }
 
 fn xh(b: &[u8]) -> String {
@@ -102,12 +111,20 @@ impl Op {
             RemoveFile(m, f) => format!("OP remove_file {} {}", m, f),
             AddToFile(h, f) => format!("OP add_to_file {} {}", h, f),
             RemoveFromFile(h, f) => format!("OP remove_from_file {} {}", h, f),
+            Sort(h) => format!("OP2 sort {}", h),
+            SortModel(m) => format!("OP2 sort_model {}", m),
+            Duplicate(m) => format!("OP2 duplicate {}", m),
+            Load(m, b, f, st) => format!("OP2 load {} {} {} {}", m, xh(b), xh(f), *st as u8),
+            SetVersion(f, v) => format!("OP2 set_version {} {}", f, v),
+            CheckCompat(f, v) => format!("OP2 check_compat {} {}", f, v),
+            SerializeFile(f) => format!("OP2 serialize_file {}", f),
+            SerializeElem(h) => format!("OP2 serialize_elem {}", h),
         }
     }
     pub fn parse(l: &str) -> Option<Op> {
         use Op::*;
         let w: Vec<&str> = l.split_whitespace().collect();
-        if w.len() < 2 || w[0] != "OP" {
+        if w.len() < 2 || (w[0] != "OP" && w[0] != "OP2") {
             return None;
         }
         let u = |k: usize| -> usize { w[k + 2].parse().unwrap() };
@@ -140,6 +157,14 @@ impl Op {
             "remove_file" => RemoveFile(u(0), u(1)),
             "add_to_file" => AddToFile(u(0), u(1)),
             "remove_from_file" => RemoveFromFile(u(0), u(1)),
+            "sort" => Sort(u(0)),
+            "sort_model" => SortModel(u(0)),
+            "duplicate" => Duplicate(u(0)),
+            "load" => Load(u(0), hx(1), hx(2), w[5] == "1"),
+            "set_version" => SetVersion(u(0), w[3].parse().unwrap()),
+            "check_compat" => CheckCompat(u(0), w[3].parse().unwrap()),
+            "serialize_file" => SerializeFile(u(0)),
+            "serialize_elem" => SerializeElem(u(0)),
             other => panic!("unknown op {}", other),
         })
     }
@@ -172,6 +197,25 @@ impl Names {
     }
 }
 
+pub fn text_digest(t: &str) -> String {
+    let mut h: u64 = 0xcbf29ce484222325;
+    for b in t.bytes() {
+        h ^= b as u64;
+        h = h.wrapping_mul(0x100000001b3);
+    }
+    format!("{}:{:016x}", t.len(), h)
+}
+pub fn show_load_error(e: &AutosarDataError) -> String {
+    match e {
+        AutosarDataError::LexerError { line, .. } => format!("L@{}", line),
+        AutosarDataError::ParserError { line, source, .. } => {
+            let d = format!("{:?}", source);
+            let n: String = d.chars().take_while(|c| c.is_ascii_alphanumeric()).collect();
+            format!("P{}@{}", n, line)
+        }
+        other => format!("?{}", err_name(other)),
+    }
+}
 pub fn err_name(e: &AutosarDataError) -> String {
     let d = format!("{:?}", e);
     d.chars().take_while(|c| c.is_ascii_alphanumeric()).collect()
@@ -201,6 +245,7 @@ pub struct Exec<'a> {
     pub handles: Vec<Element>,
     pub hidx: HashMap<Element, usize>,
     pub probes: Vec<String>,
+    pub serialize_obs: bool,
 }
 
 fn vers(v: u32) -> Option<AutosarVersion> {
@@ -209,7 +254,7 @@ fn vers(v: u32) -> Option<AutosarVersion> {
 
 impl<'a> Exec<'a> {
     pub fn new(names: &'a Names) -> Exec<'a> {
-        Exec { names, models: vec![], files: vec![], handles: vec![], hidx: HashMap::new(), probes: vec![] }
+        Exec { names, models: vec![], files: vec![], handles: vec![], hidx: HashMap::new(), probes: vec![], serialize_obs: false }
     }
     pub fn hnum(&self, e: &Element) -> String {
         match self.hidx.get(e) {
@@ -257,6 +302,10 @@ impl<'a> Exec<'a> {
             Bool(bool),
             File(Result<ArxmlFile, AutosarDataError>),
             Model(AutosarModel),
+            Text(Result<String, AutosarDataError>),
+            Compat(Vec<CompatibilityError>, u32),
+            Load(Result<(ArxmlFile, Vec<AutosarDataError>), AutosarDataError>),
+            Dup(Result<AutosarModel, AutosarDataError>),
             Bad(&'static str),
         }
         let opc = op.clone();
@@ -311,6 +360,26 @@ impl<'a> Exec<'a> {
                 }
                 AddToFile(a, f) => R::Unit(h(a).add_to_file(&files[*f])),
                 RemoveFromFile(a, f) => R::Unit(h(a).remove_from_file(&files[*f])),
+                Sort(a) => {
+                    h(a).sort();
+                    R::Unit(Ok(()))
+                }
+                SortModel(m) => {
+                    models[*m].sort();
+                    R::Unit(Ok(()))
+                }
+                Duplicate(m) => R::Dup(models[*m].duplicate()),
+                Load(m, b, f, st) => R::Load(models[*m].load_buffer(b, String::from_utf8_lossy(f).to_string(), *st)),
+                SetVersion(f, v) => match vers(*v) { Some(ver) => R::Unit(files[*f].set_version(ver)), None => R::Bad("version") },
+                CheckCompat(f, v) => match vers(*v) {
+                    Some(ver) => {
+                        let (e, m) = files[*f].check_version_compatibility(ver);
+                        R::Compat(e, m)
+                    }
+                    None => R::Bad("version"),
+                },
+                SerializeFile(f) => R::Text(files[*f].serialize()),
+                SerializeElem(a) => R::Text(Ok(h(a).serialize())),
             }
         });
         match r {
@@ -319,6 +388,46 @@ impl<'a> Exec<'a> {
             Ok(R::Unit(Ok(()))) => {
                 self.discover(None);
                 "R OK".to_string()
+            }
+            Ok(R::Text(Ok(t))) => {
+                self.discover(None);
+                format!("R OK text {}", text_digest(&t))
+            }
+            Ok(R::Compat(errs, mask)) => {
+                self.discover(None);
+                let l: Vec<String> = errs
+                    .iter()
+                    .map(|e| match e {
+                        CompatibilityError::IncompatibleAttribute { element, attribute, version_mask } => {
+                            format!("A:{}:{}:{}", self.hnum(element), *attribute as u16, version_mask)
+                        }
+                        CompatibilityError::IncompatibleAttributeValue { element, attribute, version_mask, .. } => {
+                            format!("V:{}:{}:{}", self.hnum(element), *attribute as u16, version_mask)
+                        }
+                        CompatibilityError::IncompatibleElement { element, version_mask } => format!("E:{}:{}", self.hnum(element), version_mask),
+                    })
+                    .collect();
+                format!("R OK compat mask={} [{}]", mask, l.join(";"))
+            }
+            Ok(R::Load(Ok((f, ws)))) => {
+                self.files.push(f);
+                self.discover(None);
+                let l: Vec<String> = ws.iter().map(show_load_error).collect();
+                format!("R OK f{} warn=[{}]", self.files.len() - 1, l.join(";"))
+            }
+            Ok(R::Dup(Ok(m))) => {
+                // the files of the copy are new file objects, in the order of the original's files
+                for f in m.files() {
+                    self.files.push(f);
+                }
+                self.models.push(m);
+                self.discover(None);
+                format!("R OK m{}", self.models.len() - 1)
+            }
+            Ok(R::Text(Err(e))) | Ok(R::Load(Err(e))) | Ok(R::Dup(Err(e))) => {
+                self.discover(None);
+                let n = err_name(&e);
+                format!("R ERR {}", if n == "LexerError" || n == "ParserError" { "LoadError".to_string() } else { n })
             }
             Ok(R::Unit(Err(e))) | Ok(R::Elem(Err(e))) | Ok(R::File(Err(e))) => {
                 self.discover(None);
@@ -406,6 +515,14 @@ impl<'a> Exec<'a> {
             let m = f.model().map(|m| self.model_idx(&m)).unwrap_or("?".into());
             out(&format!("F {} model={} ver={}", k, m, f.version() as u32));
         }
+        if self.serialize_obs {
+            for (k, f) in self.files.iter().enumerate() {
+                match f.serialize() {
+                    Ok(t) => out(&format!("X {} ok:{}", k, text_digest(&t))),
+                    Err(e) => out(&format!("X {} err:{}", k, err_name(&e))),
+                }
+            }
+        }
     }
 
     fn dump(&self, e: &Element, depth: usize, out: &mut dyn FnMut(&str)) {
@@ -471,7 +588,8 @@ pub fn read_scripts(path: &str) -> Vec<(usize, Vec<String>, Vec<Op>)> {
                 last.1 = w[1..].iter().map(|x| String::from_utf8_lossy(&unhex(x)).to_string()).collect();
             }
             "PATHS-EMPTY" => res.last_mut().unwrap().1 = vec![String::new()],
-            "OP" => {
+            "OBSERVE" => res.last_mut().unwrap().1.push("\u{1}OBSERVE-serialize".to_string()),
+            "OP" | "OP2" => {
                 let op = Op::parse(&l).unwrap();
                 res.last_mut().unwrap().2.push(op);
             }
@@ -489,7 +607,8 @@ fn run_script_lines(dump: String, probes: Vec<String>, ops: Vec<Op>, timeout_ms:
         .spawn(move || {
             let names = Names::load(&dump);
             let mut ex = Exec::new(&names);
-            ex.probes = probes;
+            ex.serialize_obs = probes.iter().any(|p| p == "\u{1}OBSERVE-serialize");
+            ex.probes = probes.into_iter().filter(|p| !p.starts_with('\u{1}')).collect();
             for op in &ops {
                 // announce the operation first, so that a hang can be attributed
                 let _ = tx.send(Some("@".to_string()));
@@ -578,6 +697,7 @@ const VERSIONS: &[u32] = &[0x100000, 0x40000, 0x1, 0x800, 0x80000];
 type Sink = std::sync::Arc<std::sync::Mutex<(Vec<String>, BTreeSet<String>)>>;
 
 struct Gen<'a> {
+    enable: Vec<String>,
     sink: Sink,
     rng: SplitMix64,
     ex: Exec<'a>,
@@ -697,6 +817,51 @@ impl<'a> Gen<'a> {
         if self.ex.files.is_empty() && self.rng.below(10) != 0 {
             let v = if self.rng.below(3) == 0 { *self.rng.pick(VERSIONS) } else { VERSIONS[0] };
             self.push(Op::CreateFile(0, b"f0.arxml".to_vec(), v));
+            return;
+        }
+        if !self.enable.is_empty() && self.rng.below(100) < 7 {
+            let fam = self.enable[self.rng.below(self.enable.len() as u64) as usize].clone();
+            match fam.as_str() {
+                "sort" => {
+                    if self.rng.below(3) == 0 {
+                        let m = self.rng.below(self.ex.models.len() as u64) as usize;
+                        self.push(Op::SortModel(m));
+                    } else if let Some(hk) = self.pickh() {
+                        self.push(Op::Sort(hk));
+                    }
+                }
+                "dup" => {
+                    if self.ex.models.len() < 3 {
+                        let m = self.rng.below(self.ex.models.len() as u64) as usize;
+                        self.push(Op::Duplicate(m));
+                    }
+                }
+                "compat" => {
+                    if !self.ex.files.is_empty() {
+                        let f = self.rng.below(self.ex.files.len() as u64) as usize;
+                        let v = *self.rng.pick(VERSIONS);
+                        if self.rng.below(3) == 0 { self.push(Op::SetVersion(f, v)); } else { self.push(Op::CheckCompat(f, v)); }
+                    }
+                }
+                "load" => {
+                    // the text of an existing file (possibly of another model) loaded under a fresh name
+                    if !self.ex.files.is_empty() && self.ex.files.len() < 5 {
+                        let f = self.rng.below(self.ex.files.len() as u64) as usize;
+                        if let Ok(t) = self.ex.files[f].serialize() {
+                            let m = self.rng.below(self.ex.models.len() as u64) as usize;
+                            let nm = format!("l{}.arxml", self.rng.below(4));
+                            let strict = self.rng.below(2) == 0;
+                            self.push(Op::Load(m, t.into_bytes(), nm.into_bytes(), strict));
+                        }
+                    }
+                }
+                "serialize" => {
+                    if let Some(hk) = self.pickh() {
+                        self.push(Op::SerializeElem(hk));
+                    }
+                }
+                _ => {}
+            }
             return;
         }
         let roll = self.rng.below(100);
@@ -955,17 +1120,21 @@ pub fn gen_main(args: &[String]) {
     let mut total: HashMap<String, (u64, u64)> = HashMap::new();
     let mut nops = 0u64;
     let mut hung = 0u64;
+    // operation families beyond Tree/Script.v, switched on as their Coq models arrive: serialize,sort,dup,load,compat
+    let enable: Vec<String> = std::env::var("AVH_TREE_ENABLE").unwrap_or_default().split(',').filter(|x| !x.is_empty()).map(|x| x.to_string()).collect();
     for k in 0..nscripts {
         let sink: Sink = std::sync::Arc::new(std::sync::Mutex::new((vec![], BTreeSet::new())));
         let sink2 = sink.clone();
         let dump2 = dump.clone();
         let tier2 = tier.clone();
+        let enable2 = enable.clone();
         let (tx, rx) = mpsc::channel::<HashMap<String, (u64, u64)>>();
         std::thread::Builder::new()
             .stack_size(256 * 1024 * 1024)
             .spawn(move || {
                 let names = Names::load(&dump2);
                 let mut g = Gen {
+                    enable: enable2,
                     sink: sink2,
                     rng: SplitMix64(seed.wrapping_mul(0x9E3779B97F4A7C15).wrapping_add(k as u64 * 7919 + 1)),
                     ex: Exec::new(&names),
@@ -1020,6 +1189,9 @@ pub fn gen_main(args: &[String]) {
         }
         let pl: Vec<String> = probes.iter().filter(|p| !p.is_empty() && p.len() < 80).map(|p| hex(p.as_bytes())).collect();
         text.push_str(&format!("PATHS {}\n", pl.join(" ")));
+        if enable.iter().any(|e| e == "serialize") {
+            text.push_str("OBSERVE serialize\n");
+        }
         for l in &ops_lines {
             text.push_str(l);
             text.push('\n');
